@@ -33,7 +33,7 @@ def main() -> int:
     if a.replay:
         with open(a.replay) as f:
             w = json.load(f)
-        ctx = core.Ctx(mod.ID, w.get("tier", "quick"), int(w.get("seed", 0)))
+        ctx = core.new_ctx(mod, w.get("tier", "quick"), int(w.get("seed", 0)))
         core.run_one(mod, ctx, w["gen"], int(w["case"]))
         print("replayed gen=%s case=%d seed=%d: %d violations, %d evaluations"
               % (w["gen"], w["case"], ctx.seed,
@@ -48,7 +48,7 @@ def main() -> int:
 
     if a.shard:                       # worker of the sharded tier
         i, n = (int(x) for x in a.shard.split("/"))
-        ctx = core.Ctx(mod.ID, a.tier, seed)
+        ctx = core.new_ctx(mod, a.tier, seed)
         budget = float(os.environ.get("VF_WORKER_BUDGET", "0") or 0)
         deadline = (t0 + budget) if budget else None
         try:
@@ -59,7 +59,7 @@ def main() -> int:
             json.dump(ctx.dump(), f)
         return 0
 
-    ctx = core.Ctx(mod.ID, a.tier, seed)
+    ctx = core.new_ctx(mod, a.tier, seed)
     dead = []
     nworkers = a.workers or (1 if a.tier == "quick" else
                              min(16, os.cpu_count() or 1))
